@@ -1066,7 +1066,8 @@ class Translator:
 def translate_file(path, ns):
     with open(path) as fh:
         src = fh.read()
-    return Translator(src, ns).emit(os.path.relpath(path, "/repo") if path.startswith("/repo") else path)
+    root = os.environ.get("GSV_REPO", "/repo")
+    return Translator(src, ns).emit(os.path.relpath(path, root) if path.startswith(root) else path)
 
 
 def main():
